@@ -4,6 +4,10 @@
 -/
 import GormModel.Model.StmtWait
 import GormModel.Lemmas.StmtCacheStep
+import GormModel.Lemmas.StmtCacheInv
+import GormModel.Lemmas.StmtCacheLeak
+import GormModel.Lemmas.StmtCacheBroadcast
+import GormModel.Lemmas.StmtCacheTransp
 namespace Gorm.SW
 open Gorm.SC
 
@@ -85,5 +89,21 @@ theorem wrun_base (w : WSt) (h : w.wcfg = allChecked) (sched : List Act) : (wrun
       rw [this]
       have hc : w'.wcfg = allChecked := by rw [h2 w' hw]; exact h
       simpa [wrun, run] using ih w' hc
+
+/-- C14's failure broadcast on the base LTS (same derivation as `C14_failure_broadcast`, from the invariants `Inv2` and `FB` of
+    Lemmas/StmtCacheLeak + StmtCacheBroadcast): every returned operation that resolved to a failed entry returned `prepErr` -/
+theorem failure_broadcast (ops : List Op) (nV : Nat) (cfg : Cfg) (sched : List Act) (hw : wfOps ops nV) (e : Nat) :
+    let s := run (init ops nV cfg) sched
+    e < s.nE → (s.entries e).err = true → ∀ t r, (s.threads t).ent = some e → result s t = some r → r = .prepErr := by
+  intro s _ herr t r hent hres
+  have h2 : Inv2 s := inv2_reachable ops nV cfg hw sched
+  have hT := h2.1.1.1 t
+  unfold result at hres
+  split at hres
+  next r' hpc =>
+    have hr : r' = r := by simpa using hres
+    rw [← hr]
+    exact ((hT.2.2.2.2.2.2.2.2 r' hpc e hent).2.2).mp herr
+  next => cases hres
 
 end Gorm.SW
